@@ -350,10 +350,10 @@ package goatlang
 //@ func (Value).convert
 //@   property C04
 //@   intmode bv
+//@   reveal Uint8 Int8 Int32 Uint32 Float64
 //@   requires valid(v)
-//@   requires t == TypeUint8 || t == TypeInt8 || t == TypeInt32 || t == TypeUint32 || t == TypeFloat64
-//@   nopanic
-//@   ensures#tag result.t == t && valid(result)
+//@   ensures#tag isInt(t) || t == TypeFloat64 ==> result.t == t && valid(result)
+//@   ensures#other !isInt(t) && t != TypeFloat64 && t != TypeString && t != TypeSlice ==> result.t == TypeNil && isnil(result.value) && same(result.num, 0.0)
 //@   ensures#i8_u8 t == TypeUint8 && v.t == TypeInt8 ==> uint8(result.num) == uint8(int8(v.num))
 //@   ensures#i32_u8 t == TypeUint8 && v.t == TypeInt32 ==> uint8(result.num) == uint8(int32(v.num))
 //@   ensures#u32_u8 t == TypeUint8 && v.t == TypeUint32 ==> uint8(result.num) == uint8(uint32(v.num))
@@ -468,8 +468,439 @@ package goatlang
 //@ func (Value).IsNil
 //@   inline
 //@ func (Value).convert case TypeUint8
+//@   nopanic
 //@ func (Value).convert case TypeInt8
+//@   nopanic
 //@ func (Value).convert case TypeInt32
+//@   nopanic
 //@ func (Value).convert case TypeUint32
+//@   nopanic
 //@   axioms AMD64_u32
 //@ func (Value).convert case TypeFloat64
+//@   nopanic
+//@ func (Value).convert case default
+//@   nopanic
+//@ func (Value).convert case TypeString
+//@   trusted
+//@ func (Value).convert case TypeSlice
+//@   trusted
+
+// ---------------------------------------------------------------------------------------------
+// Layer V: the instruction set — one case contract per case of (*VM).exec
+// ---------------------------------------------------------------------------------------------
+//@ ghost slotsOf(c []instruction) int
+//@
+//@ func (*VM).exec
+//@   requires v.frame.BaseN >= 0 && slotsOf(v.frame.Codes) >= 0 && len(v.stack) >= v.frame.BaseN + slotsOf(v.frame.Codes)
+//@
+//@ func (*VM).exec loop 0
+//@   invariant v.frame.Codes == codes && v.frame.BaseN == baseN && l == len(codes)
+//@   invariant 0 <= v.frame.N
+//@   invariant baseN >= 0 && slotsOf(codes) >= 0 && len(v.stack) >= baseN + slotsOf(codes)
+//@
+
+//@ spec ins(v *VM) instruction
+//@   def v.frame.Codes[v.frame.N]
+//@ spec need(v *VM, n int) bool
+//@   def len(v.stack) >= v.frame.BaseN + slotsOf(v.frame.Codes) + n
+//@ spec top(v *VM, k int) Value
+//@   def v.stack[len(v.stack)-1-k]
+//@ spec keeps(v *VM, n int) bool
+//@   def forall j int :: 0 <= j && j < n ==> v.stack[j] == old(v.stack[j])
+//@ spec keepsExcept(v *VM, n int, x int) bool
+//@   def forall j int :: 0 <= j && j < n && j != x ==> v.stack[j] == old(v.stack[j])
+//@ spec stays(v *VM) bool
+//@   def v.frame.N == old(v.frame.N)
+//@ spec localOK(v *VM, a reg) bool
+//@   def 0 <= int(a) && int(a) < slotsOf(v.frame.Codes)
+//@ spec local(v *VM, a reg) Value
+//@   def v.stack[v.frame.BaseN+int(a)]
+//@ spec globalOK(v *VM, a reg) bool
+//@   def 0 <= int(a) && int(a) < len(v.globals.data)
+//@ spec sepStack(v *VM) bool
+//@   def arr(v.stack) != arr(v.globals.data) && v.globals != nil
+//@
+//@ func (*VM).exec context
+//@   property C07
+//@   requires sepStack(v)
+//@   ensures#callerframes forall j int :: 0 <= j && j < baseN ==> v.stack[j] == old(v.stack[j])
+//@   ensures#frameobj v.frame.Codes == old(v.frame.Codes) && v.frame.BaseN == old(v.frame.BaseN) && v.globals == old(v.globals)
+//@
+//@ func (*VM).exec case codeAdd
+//@   property C07 C04 C02
+//@   requires need(v, 2) && valid(top(v, 1)) && valid(top(v, 0))
+//@   ensures#delta len(v.stack) == old(len(v.stack)) - 1
+//@   ensures#frame keeps(v, len(v.stack) - 1)
+//@   ensures#value top(v, 0) == old(top(v, 1)).opAdd(old(top(v, 0)))
+//@   ensures#next stays(v)
+//@
+//@ func (*VM).exec case codeSub
+//@   property C07 C04 C02
+//@   requires need(v, 2) && valid(top(v, 1)) && valid(top(v, 0))
+//@   ensures#delta len(v.stack) == old(len(v.stack)) - 1
+//@   ensures#frame keeps(v, len(v.stack) - 1)
+//@   ensures#value top(v, 0) == old(top(v, 1)).opSub(old(top(v, 0)))
+//@   ensures#next stays(v)
+//@
+//@ func (*VM).exec case codeMul
+//@   property C07 C04 C02
+//@   requires need(v, 2) && valid(top(v, 1)) && valid(top(v, 0))
+//@   ensures#delta len(v.stack) == old(len(v.stack)) - 1
+//@   ensures#frame keeps(v, len(v.stack) - 1)
+//@   ensures#value top(v, 0) == old(top(v, 1)).opMul(old(top(v, 0)))
+//@   ensures#next stays(v)
+//@
+//@ func (*VM).exec case codeDiv
+//@   property C07 C04 C02
+//@   requires need(v, 2) && valid(top(v, 1)) && valid(top(v, 0))
+//@   ensures#delta len(v.stack) == old(len(v.stack)) - 1
+//@   ensures#frame keeps(v, len(v.stack) - 1)
+//@   ensures#value top(v, 0) == old(top(v, 1)).opDiv(old(top(v, 0)))
+//@   ensures#next stays(v)
+//@
+//@ func (*VM).exec case codeMod
+//@   property C07 C04 C02
+//@   requires need(v, 2) && valid(top(v, 1)) && valid(top(v, 0))
+//@   ensures#delta len(v.stack) == old(len(v.stack)) - 1
+//@   ensures#frame keeps(v, len(v.stack) - 1)
+//@   ensures#value top(v, 0) == old(top(v, 1)).opMod(old(top(v, 0)))
+//@   ensures#next stays(v)
+//@
+//@ func (*VM).exec case codeLte
+//@   property C07 C04 C02
+//@   requires need(v, 2) && valid(top(v, 1)) && valid(top(v, 0))
+//@   ensures#delta len(v.stack) == old(len(v.stack)) - 1
+//@   ensures#frame keeps(v, len(v.stack) - 1)
+//@   ensures#value top(v, 0) == old(top(v, 1)).opLte(old(top(v, 0)))
+//@   ensures#next stays(v)
+//@
+//@ func (*VM).exec case codeGte
+//@   property C07 C04 C02
+//@   requires need(v, 2) && valid(top(v, 1)) && valid(top(v, 0))
+//@   ensures#delta len(v.stack) == old(len(v.stack)) - 1
+//@   ensures#frame keeps(v, len(v.stack) - 1)
+//@   ensures#value top(v, 0) == old(top(v, 0)).opLte(old(top(v, 1)))
+//@   ensures#next stays(v)
+//@
+//@ func (*VM).exec case codeNeq
+//@   property C07 C04 C02
+//@   requires need(v, 2) && valid(top(v, 1)) && valid(top(v, 0))
+//@   ensures#delta len(v.stack) == old(len(v.stack)) - 1
+//@   ensures#frame keeps(v, len(v.stack) - 1)
+//@   ensures#value top(v, 0) == old(top(v, 1)).opNeq(old(top(v, 0)))
+//@   ensures#next stays(v)
+//@
+//@ func (*VM).exec case codeEq
+//@   property C07 C04 C02
+//@   requires need(v, 2) && valid(top(v, 1)) && valid(top(v, 0))
+//@   ensures#delta len(v.stack) == old(len(v.stack)) - 1
+//@   ensures#frame keeps(v, len(v.stack) - 1)
+//@   ensures#value top(v, 0) == old(top(v, 1)).opEq(old(top(v, 0)))
+//@   ensures#next stays(v)
+//@
+//@ func (*VM).exec case codeLt
+//@   property C07 C04 C02
+//@   requires need(v, 2) && valid(top(v, 1)) && valid(top(v, 0))
+//@   ensures#delta len(v.stack) == old(len(v.stack)) - 1
+//@   ensures#frame keeps(v, len(v.stack) - 1)
+//@   ensures#value top(v, 0) == old(top(v, 1)).opLt(old(top(v, 0)))
+//@   ensures#next stays(v)
+//@
+//@ func (*VM).exec case codeGt
+//@   property C07 C04 C02
+//@   requires need(v, 2) && valid(top(v, 1)) && valid(top(v, 0))
+//@   ensures#delta len(v.stack) == old(len(v.stack)) - 1
+//@   ensures#frame keeps(v, len(v.stack) - 1)
+//@   ensures#value top(v, 0) == old(top(v, 0)).opLt(old(top(v, 1)))
+//@   ensures#next stays(v)
+//@
+//@ func (*VM).exec case codeBitAnd
+//@   property C07 C04 C02
+//@   requires need(v, 2) && valid(top(v, 1)) && valid(top(v, 0))
+//@   ensures#delta len(v.stack) == old(len(v.stack)) - 1
+//@   ensures#frame keeps(v, len(v.stack) - 1)
+//@   ensures#value top(v, 0) == old(top(v, 1)).opBitAnd(old(top(v, 0)))
+//@   ensures#next stays(v)
+//@
+//@ func (*VM).exec case codeBitOr
+//@   property C07 C04 C02
+//@   requires need(v, 2) && valid(top(v, 1)) && valid(top(v, 0))
+//@   ensures#delta len(v.stack) == old(len(v.stack)) - 1
+//@   ensures#frame keeps(v, len(v.stack) - 1)
+//@   ensures#value top(v, 0) == old(top(v, 1)).opBitOr(old(top(v, 0)))
+//@   ensures#next stays(v)
+//@
+//@ func (*VM).exec case codeBitXor
+//@   property C07 C04 C02
+//@   requires need(v, 2) && valid(top(v, 1)) && valid(top(v, 0))
+//@   ensures#delta len(v.stack) == old(len(v.stack)) - 1
+//@   ensures#frame keeps(v, len(v.stack) - 1)
+//@   ensures#value top(v, 0) == old(top(v, 1)).opBitXor(old(top(v, 0)))
+//@   ensures#next stays(v)
+//@
+//@ func (*VM).exec case codeBitLsh
+//@   property C07 C04 C02
+//@   requires need(v, 2) && valid(top(v, 1)) && valid(top(v, 0))
+//@   ensures#delta len(v.stack) == old(len(v.stack)) - 1
+//@   ensures#frame keeps(v, len(v.stack) - 1)
+//@   ensures#value top(v, 0) == old(top(v, 1)).opBitLsh(old(top(v, 0)))
+//@   ensures#next stays(v)
+//@
+//@ func (*VM).exec case codeBitRsh
+//@   property C07 C04 C02
+//@   requires need(v, 2) && valid(top(v, 1)) && valid(top(v, 0))
+//@   ensures#delta len(v.stack) == old(len(v.stack)) - 1
+//@   ensures#frame keeps(v, len(v.stack) - 1)
+//@   ensures#value top(v, 0) == old(top(v, 1)).opBitRsh(old(top(v, 0)))
+//@   ensures#next stays(v)
+//@
+//@ func (*VM).exec case codeLocalMul
+//@   property C07 C04 C02
+//@   requires localOK(v, ins(v).A) && localOK(v, ins(v).B) && valid(local(v, ins(v).A)) && valid(local(v, ins(v).B))
+//@   ensures#delta len(v.stack) == old(len(v.stack)) + 1
+//@   ensures#frame keeps(v, old(len(v.stack)))
+//@   ensures#value top(v, 0) == old(local(v, ins(v).A)).opMul(old(local(v, ins(v).B)))
+//@   ensures#next stays(v)
+//@
+//@ func (*VM).exec case codeLocalAdd
+//@   property C07 C04 C02
+//@   requires localOK(v, ins(v).A) && localOK(v, ins(v).B) && valid(local(v, ins(v).A)) && valid(local(v, ins(v).B))
+//@   ensures#delta len(v.stack) == old(len(v.stack)) + 1
+//@   ensures#frame keeps(v, old(len(v.stack)))
+//@   ensures#value top(v, 0) == old(local(v, ins(v).A)).opAdd(old(local(v, ins(v).B)))
+//@   ensures#next stays(v)
+//@
+//@ func (*VM).exec case codeLocalDiv
+//@   property C07 C04 C02
+//@   requires localOK(v, ins(v).A) && localOK(v, ins(v).B) && valid(local(v, ins(v).A)) && valid(local(v, ins(v).B))
+//@   ensures#delta len(v.stack) == old(len(v.stack)) + 1
+//@   ensures#frame keeps(v, old(len(v.stack)))
+//@   ensures#value top(v, 0) == old(local(v, ins(v).A)).opDiv(old(local(v, ins(v).B)))
+//@   ensures#next stays(v)
+//@
+//@ func (*VM).exec case codeLocalSub
+//@   property C07 C04 C02
+//@   requires localOK(v, ins(v).A) && localOK(v, ins(v).B) && valid(local(v, ins(v).A)) && valid(local(v, ins(v).B))
+//@   ensures#delta len(v.stack) == old(len(v.stack)) + 1
+//@   ensures#frame keeps(v, old(len(v.stack)))
+//@   ensures#value top(v, 0) == old(local(v, ins(v).A)).opSub(old(local(v, ins(v).B)))
+//@   ensures#next stays(v)
+//@
+
+//@ func (*VM).exec case codePop
+//@   property C07
+//@   requires need(v, 1)
+//@   nopanic
+//@   ensures#delta len(v.stack) == old(len(v.stack)) - 1
+//@   ensures#frame keeps(v, len(v.stack))
+//@   ensures#next stays(v)
+//@
+//@ func (*VM).exec case codePush
+//@   property C07 C02
+//@   nopanic
+//@   ensures#delta len(v.stack) == old(len(v.stack)) + 1
+//@   ensures#frame keeps(v, old(len(v.stack)))
+//@   ensures#value top(v, 0) == newUntypedInt(int(old(ins(v)).A))
+//@   ensures#next stays(v)
+//@
+// ---- lookup (globals table) ----
+//@ func (*lookup).Read
+//@   inline
+//@ func (*lookup).Key
+//@   inline
+//@ func (*lookup).Len
+//@   inline
+//@ func (*lookup).Cap
+//@   inline
+//@ func (*lookup).Write
+//@   property C17 C07
+//@   modifies elems(l.data)
+//@   panics_iff index < 0 || index >= len(l.data)
+//@   ensures l.data[index] == v
+//@   ensures forall j int :: 0 <= j && j < len(l.data) && j != index ==> l.data[j] == old(l.data[j])
+//@
+//@ func (*lookup).Assign
+//@   property C17 C07 C04
+//@   modifies elems(l.data)
+//@   requires valid(v)
+//@   panics_iff index < 0 || index >= len(l.data)
+//@   ensures l.data[index] == v.assign(old(l.data[index]).t)
+//@   ensures forall j int :: 0 <= j && j < len(l.data) && j != index ==> l.data[j] == old(l.data[j])
+//@
+//@ func (Value).getFunc
+//@   inline
+
+//@ func (*VM).exec case codeIncDec
+//@   property C07 C04 C02
+//@   reveal Int
+//@   requires need(v, 1) && valid(top(v, 0))
+//@   ensures#delta len(v.stack) == old(len(v.stack))
+//@   ensures#frame keeps(v, len(v.stack) - 1)
+//@   ensures#value top(v, 0) == old(top(v, 0)).opAdd(newUntypedInt(int(old(ins(v)).A)))
+//@   ensures#next stays(v)
+//@
+//@ func (*VM).exec case codeLocalIncDec
+//@   property C07 C04 C02
+//@   reveal Int
+//@   requires localOK(v, ins(v).A) && valid(local(v, ins(v).A))
+//@   ensures#delta len(v.stack) == old(len(v.stack))
+//@   ensures#frame keepsExcept(v, len(v.stack), baseN + int(old(ins(v)).A))
+//@   ensures#value local(v, old(ins(v)).A) == old(local(v, ins(v).A)).opAdd(newUntypedInt(int(old(ins(v)).B)))
+//@   ensures#next stays(v)
+//@
+//@ func (*VM).exec case codeCast
+//@   property C07 C04
+//@   requires need(v, 1) && valid(top(v, 0))
+//@   nopanic
+//@   ensures#delta len(v.stack) == old(len(v.stack))
+//@   ensures#frame keeps(v, len(v.stack) - 1)
+//@   ensures#value top(v, 0) == old(top(v, 0)).assign(Type(old(ins(v)).A))
+//@   ensures#next stays(v)
+//@
+//@ func (*VM).exec case codeNegate
+//@   property C07 C04
+//@   reveal (Value).opMul newUntypedInt
+//@   axioms MULNEG_8 MULNEG_32 MULNEG_64
+//@   requires need(v, 1) && valid(top(v, 0))
+//@   nopanic
+//@   ensures#delta len(v.stack) == old(len(v.stack))
+//@   ensures#frame keeps(v, len(v.stack) - 1)
+//@   ensures#value top(v, 0) == old(top(v, 0)).opMul(newUntypedInt(-1))
+//@   ensures#i8 old(top(v, 0)).t == TypeInt8 ==> top(v, 0).t == TypeInt8 && int8(top(v, 0).num) == -int8(old(top(v, 0)).num)
+//@   ensures#i32 old(top(v, 0)).t == TypeInt32 ==> top(v, 0).t == TypeInt32 && int32(top(v, 0).num) == -int32(old(top(v, 0)).num)
+//@   ensures#next stays(v)
+//@
+//@ func (*VM).exec case codeBitComplement
+//@   property C07 C04
+//@   reveal (Value).assign (Value).opBitXor Uint32
+//@   requires need(v, 1) && valid(top(v, 0))
+//@   requires isInt(top(v, 0).t) || (top(v, 0).t == untypedInt && fits32(top(v, 0)))
+//@   ensures#delta len(v.stack) == old(len(v.stack))
+//@   ensures#frame keeps(v, len(v.stack) - 1)
+//@   ensures#i8 old(top(v, 0)).t == TypeInt8 ==> top(v, 0).t == TypeInt8 && int8(top(v, 0).num) == ^int8(old(top(v, 0)).num)
+//@   ensures#u8 old(top(v, 0)).t == TypeUint8 ==> top(v, 0).t == TypeUint8 && uint8(top(v, 0).num) == ^uint8(old(top(v, 0)).num)
+//@   ensures#i32 old(top(v, 0)).t == TypeInt32 ==> top(v, 0).t == TypeInt32 && int32(top(v, 0).num) == ^int32(old(top(v, 0)).num)
+//@   ensures#u32 old(top(v, 0)).t == TypeUint32 ==> top(v, 0).t == TypeUint32 && uint32(top(v, 0).num) == ^uint32(old(top(v, 0)).num)
+//@   ensures#next stays(v)
+//@
+//@ func (*VM).exec case codeNot
+//@   property C07
+//@   requires need(v, 1)
+//@   nopanic
+//@   ensures#delta len(v.stack) == old(len(v.stack))
+//@   ensures#frame keeps(v, len(v.stack) - 1)
+//@   ensures#value top(v, 0) == Bool(!old(top(v, 0)).Bool())
+//@   ensures#next stays(v)
+//@
+//@ func (*VM).exec case codeZero
+//@   property C07
+//@   nopanic
+//@   ensures#delta len(v.stack) == old(len(v.stack)) + 1
+//@   ensures#frame keeps(v, old(len(v.stack)))
+//@   ensures#value top(v, 0) == newZero(Type(old(ins(v)).A))
+//@   ensures#next stays(v)
+//@
+//@ func (*VM).exec case codeAnd
+//@   property C07 C06
+//@   requires v.frame.N + 1 + int(ins(v).A) >= 0
+//@   requires need(v, 1)
+//@   nopanic
+//@   ensures#short !old(top(v, 0)).Bool() ==> len(v.stack) == old(len(v.stack)) && keeps(v, len(v.stack)) && v.frame.N == old(v.frame.N) + int(old(ins(v)).A)
+//@   ensures#cont old(top(v, 0)).Bool() ==> len(v.stack) == old(len(v.stack)) - 1 && keeps(v, len(v.stack)) && stays(v)
+//@
+//@ func (*VM).exec case codeOr
+//@   property C07 C06
+//@   requires v.frame.N + 1 + int(ins(v).A) >= 0
+//@   requires need(v, 1)
+//@   nopanic
+//@   ensures#short old(top(v, 0)).Bool() ==> len(v.stack) == old(len(v.stack)) && keeps(v, len(v.stack)) && v.frame.N == old(v.frame.N) + int(old(ins(v)).A)
+//@   ensures#cont !old(top(v, 0)).Bool() ==> len(v.stack) == old(len(v.stack)) - 1 && keeps(v, len(v.stack)) && stays(v)
+//@
+//@ func (*VM).exec case codeJumpFalse
+//@   property C07 C06
+//@   requires v.frame.N + 1 + int(ins(v).A) >= 0
+//@   requires need(v, 1)
+//@   nopanic
+//@   ensures#delta len(v.stack) == old(len(v.stack)) - 1 && keeps(v, len(v.stack))
+//@   ensures#next v.frame.N == ite(old(top(v, 0)).Bool(), old(v.frame.N), old(v.frame.N) + int(old(ins(v)).A))
+//@
+//@ func (*VM).exec case codeJumpTrue
+//@   property C07 C06
+//@   requires v.frame.N + 1 + int(ins(v).A) >= 0
+//@   requires need(v, 1)
+//@   nopanic
+//@   ensures#delta len(v.stack) == old(len(v.stack)) - 1 && keeps(v, len(v.stack))
+//@   ensures#next v.frame.N == ite(old(top(v, 0)).Bool(), old(v.frame.N) + int(old(ins(v)).A), old(v.frame.N))
+//@
+//@ func (*VM).exec case codeJump
+//@   property C07 C06 C02
+//@   requires v.frame.N + 1 + int(ins(v).A) >= 0
+//@   nopanic
+//@   ensures#delta len(v.stack) == old(len(v.stack)) && keeps(v, len(v.stack))
+//@   ensures#next v.frame.N == old(v.frame.N) + int(old(ins(v)).A)
+//@
+//@ func (*VM).exec case codePass
+//@   property C07 C02
+//@   nopanic
+//@   ensures#delta len(v.stack) == old(len(v.stack)) && keeps(v, len(v.stack))
+//@   ensures#next stays(v)
+//@
+//@ func (*VM).exec case codeLocalGet
+//@   property C07 C02
+//@   requires localOK(v, ins(v).A)
+//@   nopanic
+//@   ensures#delta len(v.stack) == old(len(v.stack)) + 1
+//@   ensures#frame keeps(v, old(len(v.stack)))
+//@   ensures#value top(v, 0) == old(local(v, ins(v).A))
+//@   ensures#next stays(v)
+//@
+//@ func (*VM).exec case codeLocalSet
+//@   property C07 C04 C02
+//@   requires need(v, 1) && localOK(v, ins(v).A) && valid(top(v, 0))
+//@   nopanic
+//@   ensures#delta len(v.stack) == old(len(v.stack)) - 1
+//@   ensures#frame keepsExcept(v, len(v.stack), baseN + int(old(ins(v)).A))
+//@   ensures#value local(v, old(ins(v)).A) == old(top(v, 0)).assign(old(local(v, ins(v).A)).t)
+//@   ensures#next stays(v)
+//@
+//@ func (*VM).exec case codeLocalZero
+//@   property C07
+//@   requires localOK(v, ins(v).A)
+//@   nopanic
+//@   ensures#delta len(v.stack) == old(len(v.stack))
+//@   ensures#frame keepsExcept(v, len(v.stack), baseN + int(old(ins(v)).A))
+//@   ensures#value local(v, old(ins(v)).A) == newZero(Type(old(ins(v)).B))
+//@   ensures#next stays(v)
+//@
+//@ func (*VM).exec case codeGlobalGet
+//@   property C07 C02
+//@   requires globalOK(v, ins(v).A)
+//@   nopanic
+//@   ensures#delta len(v.stack) == old(len(v.stack)) + 1
+//@   ensures#frame keeps(v, old(len(v.stack)))
+//@   ensures#value top(v, 0) == old(v.globals.data[int(ins(v).A)])
+//@   ensures#next stays(v)
+//@
+//@ func (*VM).exec case codeGlobalSet
+//@   property C07 C04 C17
+//@   requires need(v, 1) && globalOK(v, ins(v).A) && valid(top(v, 0))
+//@   nopanic
+//@   ensures#delta len(v.stack) == old(len(v.stack)) - 1
+//@   ensures#frame keeps(v, len(v.stack))
+//@   ensures#value v.globals.data[int(old(ins(v)).A)] == old(top(v, 0)).assign(old(v.globals.data[int(ins(v).A)]).t)
+//@   ensures#others forall j int :: 0 <= j && j < len(v.globals.data) && j != int(old(ins(v)).A) ==> v.globals.data[j] == old(v.globals.data[j])
+//@   ensures#next stays(v)
+//@
+//@ func (*VM).exec case codeGlobalZero
+//@   property C07 C17
+//@   requires globalOK(v, ins(v).A)
+//@   nopanic
+//@   ensures#delta len(v.stack) == old(len(v.stack)) && keeps(v, len(v.stack))
+//@   ensures#keep !old(v.globals.data[int(ins(v).A)]).IsNil() ==> v.globals.data[int(old(ins(v)).A)] == old(v.globals.data[int(ins(v).A)])
+//@   ensures#zero old(v.globals.data[int(ins(v).A)]).IsNil() ==> v.globals.data[int(old(ins(v)).A)] == newZero(Type(old(ins(v)).B)).assign(old(v.globals.data[int(ins(v).A)]).t)
+//@   ensures#others forall j int :: 0 <= j && j < len(v.globals.data) && j != int(old(ins(v)).A) ==> v.globals.data[j] == old(v.globals.data[j])
+//@   ensures#next stays(v)
+//@
+//@ func (*VM).exec case codeReturn
+//@   property C07 C06
+//@   nopanic
